@@ -746,3 +746,81 @@ Definition c06_spec (c : c06case) : bool :=
       end
   end.
 Definition check_c06 := check_cases c06_agree c06_spec.
+
+(* ========================================================================= *)
+(* C08: declarative form of the encryption decision, symbolic decryption, monitor *)
+Definition is_enc_kd (k : keydesc) : bool := seqb (kd_use k) "encryption".
+Definition is_usable_unspec (k : keydesc) : bool :=
+  negb (nonempty (kd_use k)) && match first_cert k with Some c => nonempty c | None => false end.
+Definition first_enc (l : list keydesc) : option keydesc := find is_enc_kd l.
+Definition first_unspec (l : list keydesc) : option keydesc := find is_usable_unspec l.
+
+Definition of_cert (r : certres) : encdec := match r with CertRsaKey id => EncryptTo id | _ => EncErr end.
+Definition fallback_decision (cp : string -> certres) (l : list keydesc) : encdec :=
+  match first_unspec l with
+  | Some k => of_cert (cp (opt_str (first_cert k)))
+  | None => Plain
+  end.
+(* what getSPEncryptionCert + Encrypt decide, read off the metadata:
+   the FIRST use="encryption" descriptor decides unless its first certificate
+   is the empty string; then (or when there is none) the first descriptor
+   without use and with a non-empty first certificate; else no encryption *)
+Definition enc_decision_decl (cp : string -> certres) (l : list keydesc) : encdec :=
+  match first_enc l with
+  | Some k =>
+      match first_cert k with
+      | None => EncErr
+      | Some c => if nonempty c then of_cert (cp c) else fallback_decision cp l
+      end
+  | None => fallback_decision cp l
+  end.
+
+(* "the metadata advertises an encryption key": the first use="encryption"
+   descriptor has no certificate element at all or a non-empty one, or some
+   use-less descriptor has a non-empty first certificate.  (An encryption
+   descriptor whose first X509Certificate element is EMPTY does not count: the
+   code then falls through to the use-less descriptors and, finding none,
+   sends the assertion in clear — see enc_empty_cert_is_plain.) *)
+Definition advertises_key_b (l : list keydesc) : bool :=
+  match first_enc l with
+  | Some k => match first_cert k with None => true | Some c => nonempty c end
+  | None => false
+  end
+  || match first_unspec l with Some _ => true | None => false end.
+
+(* symbolic decryption: only the recipient's private key opens the record *)
+Definition sym_decrypt (key : Z) (e : encrec) : option (assertion * sigrec assertion) :=
+  if key =? en_recipient e then Some (en_plain e) else None.
+
+Definition is_enc (a : assertion_el) : bool := match a with AEnc _ => true | APlain _ _ => false end.
+
+(* monitor on an observed response (same case type as C06): never a panic; when
+   the decision is an error nothing is emitted; when a key is advertised the
+   assertion is inside an EncryptedAssertion for exactly the advertised key, and
+   the content key / Ids / IV are the slices of this call's random stream *)
+Definition c08_kds (c : c06case) : option (list keydesc) :=
+  match c06_route c with Some (_, _, d, _) => Some (kds d) | None => None end.
+Definition c08_spec (c : c06case) : bool :=
+  match c6_obs c with
+  | O6Panic => false
+  | O6Err => true
+  | O6Form _ resp _ =>
+      match c08_kds c with
+      | None => false
+      | Some l =>
+          match rs_assertion (rs_body resp) with
+          | APlain _ _ => negb (advertises_key_b l)
+          | AEnc e =>
+              match enc_decision_decl (cp_of_list (c6_certs c)) l with
+              | EncryptTo id =>
+                  let w := rnd_wrapn (c6_rnd c) in
+                  let r := rnd_enc (c6_rnd c) in
+                  (en_recipient e =? id)
+                  && seqb (en_key e) (slice 0 16 r) && seqb (en_key_id e) (slice 16 16 r)
+                  && seqb (en_data_id e) (slice (32 + w) 16 r) && seqb (en_iv e) (slice (48 + w) 16 r)
+              | _ => false
+              end
+          end
+      end
+  end.
+Definition check_c08 := check_cases c06_agree c08_spec.
